@@ -380,12 +380,17 @@ class FileSystemChain(FileSystem[File[FileSystem[Any]]]):
         """
         for sys, prefix in self.systems:
             full_folder = os.path.join(prefix, folder).replace('\\', '/')
+            # The prefix to strip again. Filesystems match names case-insensitively, so the
+            # files found may spell this folder differently.
+            norm_prefix = os.path.normpath(prefix).replace('\\', '/').strip('/') if prefix else ''
             for file in sys.walk_folder(full_folder):
-                yield File(
-                    self,
-                    os.path.relpath(file.path, prefix).replace('\\', '/'),
-                    file,
-                )
+                path = file.path.replace('\\', '/')
+                start = path[:len(norm_prefix) + 1]
+                if norm_prefix and start.casefold() == norm_prefix.casefold() + '/':
+                    rel_path = path[len(start):]
+                else:
+                    rel_path = os.path.relpath(path, prefix).replace('\\', '/')
+                yield File(self, rel_path, file)
 
     def _get_cache_key(self, file: File[Self]) -> int:
         """Return the last modified time of this file.
